@@ -97,6 +97,8 @@ def run(tier):
     res["wall_s"] = round(time.time() - t0, 1)
     res["trace_cmd"] = tr.cmd
     res["from_cache"] = False
+    # the compiled cases themselves (C16 / C17 draw their pools from them: from the cache, never from a left-over work directory)
+    res["case_list"] = [{"id": c["id"], "sql": c["sql"], "tables": c["tables"]} for c in cases]
     with open(cpath, "w") as f:
         json.dump(res, f)
     return res
@@ -242,9 +244,10 @@ def features(q):
 def feature_sig(case):
     """Key of a whole-query finding: the defect signatures present, else every construct of the (minimised) query."""
     feats = features(case["q"])
-    dom = sorted(f for f in feats if f in DOMINANT)
+    # a query showing several known defect signatures is attributed to the first one (in the order of DOMINANT)
+    dom = [f for f in DOMINANT if f in feats]
     if dom:
-        return "+".join(dom)
+        return dom[0]
     return "+".join(sorted(feats)) or "plain"
 
 
@@ -351,12 +354,19 @@ def summarise(cases, obs, recs, fails, drifts, runs):
     for i, js in sorted(by_rec.items(), key=lambda kv: len(cases[kv[0] - 1]["sql"])):
         c, o, r = cases[i - 1], obs[i - 1], recs[i - 1]
         # node-level failures: keep, per judge, only the lowest failing node (inputs come first)
+        # (the judges of the declared bounds share one "lowest": a wrong size declared by a join makes the COUNT(*) range of
+        # the Reduce above it wrong too -- one defect, one failure, at the node where it starts)
+        BOUNDS = ("TypeContains", "NullOnlyIfOptional", "SizeContains")
         lowest = {}
         for judge, node in js:
             if node == 0:
                 continue
-            if judge not in lowest or node < lowest[judge]:
-                lowest[judge] = node
+            group = "bounds" if judge in BOUNDS else judge
+            if group not in lowest or node < lowest[group]:
+                lowest[group] = node
+        for judge in BOUNDS:
+            if "bounds" in lowest:
+                lowest[judge] = lowest["bounds"]
         for judge, node in js:
             if node != 0 and lowest.get(judge) != node:
                 continue
